@@ -7,6 +7,7 @@ import CfVerif.Proofs.C06Safety
 import CfVerif.Proofs.C06Read
 import CfVerif.Proofs.C06Write
 import CfVerif.Proofs.C06Live
+import CfVerif.Proofs.C06Deck
 namespace CfVerif.C06
 open CfVerif
 
@@ -535,6 +536,193 @@ theorem tester_zero_length_read_observation :
     let t2 := testerReact r1.1 s2.outs
     s2.outs = [.readOk 900 2 0 []] ∧ t2.2 = [] ∧ (testerRead s2.st t2.1 900 0 2 8).2.outs = [] := by decide
 
+/-! ## The `DeckMemoryManager` client: a layer with its own pending-request records
+
+`CEv`: `query_decks`, `DeckMemory.read`, `DeckMemory.write` (each with or without its optional failure callback),
+and ANY `Memory` event with the manager subscribed (`mem`: arbitrary received packets - so success, an error status on
+any chunk, duplicates, stale and forged replies -, the disconnect handler, requests on other memories).
+`CEv.Adm dv c`: the domain of the property plus, for each of the defects of the CURRENT code, the exact side
+condition that avoids it; for `DeckVariant.fixed` these side conditions are vacuous.  `DeckVariant.code` is what Tie A
+finds in the source; today it is `deckCurrent` (see `gen_deck_variant`). -/
+
+/-- the clearing / notifying discipline of the current source (`_new_data_failed` does not report a failed query,
+`_write_failed` calls `None`, the result of `mem_handler.read` is ignored; the read record IS always cleared) -/
+def deckCurrent : DeckVariant := ⟨false, false, false, true⟩
+
+theorem gen_deck_variant : DeckVariant.code = deckCurrent := by decide
+
+theorem gen_deck_constants : Gen.C06.deckInfoAddr = 0 ∧ Gen.C06.deckInfoSize = 257 ∧ Gen.C06.deckSupportedVersion = 3 ∧
+    Gen.C06.deckMinInfoLen ≤ Gen.C06.deckInfoSize ∧ Gen.C06.deckParseHeadFmt = "<BB" := by decide
+
+/-- the record-keeping statements of the manager: where each record is tested, set, cleared, and which callback is
+called with what (pins the ORDER of clearing and calling, and that clearing does not depend on the callback) -/
+theorem gen_deck_records :
+    Gen.C06.deckQueryDecksBody = [
+      "if self._query_complete_cb is not None:", "  raise Exception('Query ongoing')", "self._error = None",
+      "self.deck_memories = {}", "self._query_complete_cb = query_complete_cb",
+      "self._query_failed_cb = query_failed_cb",
+      "self.mem_handler.read(self, self.INFO_SECTION_ADDRESS, self.SIZE_OF_INFO_SECTION)"] ∧
+    Gen.C06.deckReadBody = [
+      "if self._read_complete_cb is not None:", "  raise Exception('Read operation ongoing')",
+      "self._read_base_address = base_address", "self._read_complete_cb = read_complete_cb",
+      "self._read_failed_cb = read_failed_cb", "mapped_address = address + self._read_base_address",
+      "self.mem_handler.read(self, mapped_address, length)"] ∧
+    Gen.C06.deckWriteBody = [
+      "if self._write_complete_cb is not None:", "  raise Exception('Write operation ongoing')",
+      "self._write_complete_cb = complete_cb", "self._write_failed_cb = failed_cb",
+      "mapped_address = address + base_address",
+      "self.mem_handler.write(self, mapped_address, data, flush_queue=True, progress_cb=progress_cb)"] ∧
+    Gen.C06.deckNewDataBody = [
+      "if mem.id == self.id:", "  if addr == self.INFO_SECTION_ADDRESS:", "    try:",
+      "      self.deck_memories = self._parse_info_section(data)", "      tmp_cb = self._query_complete_cb",
+      "      self._clear_query_cb()", "      tmp_cb(self.deck_memories)", "    except RuntimeError:",
+      "      tmp_cb = self._query_failed_cb", "      self._clear_query_cb()", "      if tmp_cb:",
+      "        tmp_cb(str(e))", "  else:", "    tmp_cb = self._read_complete_cb", "    self._clear_read_cb()",
+      "    tmp_cb(addr - self._read_base_address, data)"] ∧
+    Gen.C06.deckNewDataFailedBody = [
+      "if mem.id == self.id:", "  if addr == self.INFO_SECTION_ADDRESS:", "    self._clear_query_cb()",
+      "  else:", "    tmp_cb = self._read_failed_cb", "    self._clear_read_cb()",
+      "    if tmp_cb is not None:", "      tmp_cb(addr - self._read_base_address)", "    else:"] ∧
+    Gen.C06.deckWriteDoneBody = [
+      "if mem.id == self.id:", "  tmp_cb = self._write_complete_cb", "  self._clear_write_cb()",
+      "  tmp_cb(addr - self._read_base_address)"] ∧
+    Gen.C06.deckWriteFailedBody = [
+      "if mem.id == self.id:", "  tmp_cb = self._write_failed_cb", "  self._clear_write_cb()",
+      "  tmp_cb(addr - self._read_base_address)"] ∧
+    Gen.C06.deckClearQueryCbBody = [
+      "self._query_complete_cb = None", "self._query_failed_cb = None"] ∧
+    Gen.C06.deckClearReadCbBody = [
+      "self._read_complete_cb = None", "self._read_failed_cb = None"] ∧
+    Gen.C06.deckClearWriteCbBody = [
+      "self._write_complete_cb = None", "self._write_failed_cb = None"] ∧
+    Gen.C06.deckWiring = [
+      "self.mem_read_cb.add_callback(mem._new_data)",
+      "self.mem_read_failed_cb.add_callback(mem._new_data_failed)",
+      "self.mem_write_cb.add_callback(mem._write_done)",
+      "self.mem_write_failed_cb.add_callback(mem._write_failed)"] := by decide
+
+/-- **Exactly one notification - or silent completion - per accepted request, over all admissible histories**:
+for each kind (0 query, 1 read, 2 write), the requests closed by a callback (or closed silently because no failure
+callback had been supplied: ghost `DOut.silent`), in order, followed by the request still recorded, are EXACTLY the
+requests the manager accepted, in order.  Nothing closed twice, nothing lost, nothing invented.
+(`partial` for the current code only through `CEv.Adm`; at full strength for `DeckVariant.fixed`.) -/
+theorem deck_exactly_one (dv : DeckVariant) (id : Nat) (evs : List CEv) (ha : CAdm dv ⟨St.init, Deck.new id⟩ evs) (kind : Nat) :
+    closed kind (crun dv ⟨St.init, Deck.new id⟩ evs).2 ++ (crun dv ⟨St.init, Deck.new id⟩ evs).1.d.pending kind =
+      acceptedAll dv kind ⟨St.init, Deck.new id⟩ evs := by
+  have := (crun_inv evs (CInv.init dv id) ha).2 kind
+  simpa [Deck.pending, Deck.new, slotRid] using this
+
+/-- **No pending-request record is left behind**: after every admissible history the manager's records follow
+`Memory`'s: a query / read record exists only while `Memory` has a read of that memory recorded, the write record
+only while `Memory` has that write queued - and by the theorems above `Memory`'s records disappear with the
+notification, on an error status, and on disconnect. -/
+theorem deck_records_follow_memory (dv : DeckVariant) (id : Nat) (evs : List CEv) (ha : CAdm dv ⟨St.init, Deck.new id⟩ evs) :
+    let c := (crun dv ⟨St.init, Deck.new id⟩ evs).1
+    (dget? c.s.reads c.d.id = none → c.d.query = none ∧ c.d.read = none) ∧
+    (c.s.queue c.d.id = [] → c.d.write = none) := by
+  have h := (crun_inv evs (CInv.init dv id) ha).1
+  refine ⟨fun hn => ?_, fun hq => ?_⟩
+  · have := h.reads.1; rw [hn] at this; exact this
+  · rcases h.writes.1 with ⟨_, h2⟩ | ⟨w, h1, _⟩
+    · exact h2
+    · rw [hq] at h1; cases h1
+
+/-- **Afterwards further requests are still served**: after every admissible history, as soon as `Memory` has no
+read recorded for the manager's memory, a deck read (and a query) is ACCEPTED - it returns, is recorded and its
+first chunk request goes out; likewise a deck write as soon as nothing is queued. -/
+theorem deck_next_request_accepted (dv : DeckVariant) (id : Nat) (evs : List CEv) (ha : CAdm dv ⟨St.init, Deck.new id⟩ evs)
+    (tag base address len rid : Nat) (hf : Bool) :
+    let c := (crun dv ⟨St.init, Deck.new id⟩ evs).1
+    (dget? c.s.reads c.d.id = none → (Ev.read tag c.d.id (address + base) len).WF →
+      (cstep dv c (.dread tag base address len rid hf)).res = .ret none ∧
+      (cstep dv c (.dread tag base address len rid hf)).c.d.read = some ⟨rid, hf⟩ ∧
+      (cstep dv c (.dread tag base address len rid hf)).outs =
+        [.send Gen.C06.chanRead (readReqBytes c.d.id (address + base) (rdLen len))]) ∧
+    (dget? c.s.reads c.d.id = none → (Ev.read tag c.d.id Gen.C06.deckInfoAddr Gen.C06.deckInfoSize).WF →
+      (cstep dv c (.query tag rid hf)).res = .ret none ∧ (cstep dv c (.query tag rid hf)).c.d.query = some ⟨rid, hf⟩) := by
+  have h := (crun_inv evs (CInv.init dv id) ha).1
+  have hne : ((Res.ret (some true) : Res) == Res.ret (some false)) = false := by decide
+  refine ⟨fun hn hwf => ?_, fun hn hwf => ?_⟩
+  · have hr := h.reads.1; rw [hn] at hr
+    rcases memRead_cases _ hwf with ⟨r, hget, _⟩ | ⟨_, hm⟩
+    · rw [hn] at hget; cases hget
+    · simp [cstep, deckRead, hr.2, hm, hne]
+  · have hr := h.reads.1; rw [hn] at hr
+    rcases memRead_cases _ hwf with ⟨r, hget, _⟩ | ⟨_, hm⟩
+    · rw [hn] at hget; cases hget
+    · simp [cstep, deckQuery, hr.1, hm, hne]
+
+theorem deck_write_accepted_of_inv {dv : DeckVariant} {c : CSt} (h : CInv dv c)
+    (tag base address : Nat) (data : List UInt8) (rid : Nat) (hf p : Bool)
+    (hq : c.s.queue c.d.id = []) (hwf : (Ev.write tag c.d.id (address + base) data true p).WF) :
+    (cstep dv c (.dwrite tag base address data rid hf p)).res = .ret none ∧
+    (cstep dv c (.dwrite tag base address data rid hf p)).c.d.write = some ⟨rid, hf⟩ ∧
+    (cstep dv c (.dwrite tag base address data rid hf p)).outs =
+      [.send Gen.C06.chanWrite (headBytes c.d.id (address + base) ++ data.take (wrLen data.length))] := by
+  have hw : c.d.write = none := by
+    rcases h.writes.1 with ⟨_, h2⟩ | ⟨w, h1, _⟩
+    · exact h2
+    · rw [hq] at h1; cases h1
+  have hm := memWrite_eq h.ok hwf
+  rw [hq] at hm
+  simp only [List.take_nil, ite_self] at hm
+  simp [cstep, deckWrite, hw, hm]
+
+/-- ... and a deck write is accepted and started as soon as no write of that memory is queued -/
+theorem deck_next_write_accepted (dv : DeckVariant) (id : Nat) (evs : List CEv) (ha : CAdm dv ⟨St.init, Deck.new id⟩ evs)
+    (tag base address : Nat) (data : List UInt8) (rid : Nat) (hf p : Bool)
+    (hq : (crun dv ⟨St.init, Deck.new id⟩ evs).1.s.queue (crun dv ⟨St.init, Deck.new id⟩ evs).1.d.id = [])
+    (hwf : (Ev.write tag (crun dv ⟨St.init, Deck.new id⟩ evs).1.d.id (address + base) data true p).WF) :
+    (cstep dv (crun dv ⟨St.init, Deck.new id⟩ evs).1 (.dwrite tag base address data rid hf p)).res = .ret none ∧
+    (cstep dv (crun dv ⟨St.init, Deck.new id⟩ evs).1 (.dwrite tag base address data rid hf p)).c.d.write = some ⟨rid, hf⟩ :=
+  let h := deck_write_accepted_of_inv (crun_inv evs (CInv.init dv id) ha).1 tag base address data rid hf p hq hwf
+  ⟨h.1, h.2.1⟩
+
+/-! ### the defects of the current code at this layer (each side condition of `CEv.Adm` is necessary) -/
+
+/-- D61: a failed `query_decks` (error status on the info-section read; likewise a link drop) is reported to
+nobody: `query_failed_cb` was supplied and is never called (`SyncDeckMemoryManager.query_decks` waits forever) -/
+theorem deck_query_failure_unreported_counterexample :
+    let evs := [CEv.query 800 1 true, .mem (.pkt 1 [5, 0, 0, 0, 0, 7])]
+    acceptedAll deckCurrent 0 ⟨St.init, Deck.new 5⟩ evs = [1] ∧
+    (crun deckCurrent ⟨St.init, Deck.new 5⟩ evs).2 = [] ∧
+    (crun deckCurrent ⟨St.init, Deck.new 5⟩ evs).1.d.query = none ∧
+    (crun DeckVariant.fixed ⟨St.init, Deck.new 5⟩ evs).2 = [.queryFailed 1] := by decide
+
+/-- D62: a failed deck write for which no `write_failed_cb` was supplied (the default of `DeckMemory.write`) makes
+`_write_failed` call `None`: the TypeError escapes from `Memory`'s failure dispatch, so on a link drop the failure
+notifications of the requests after it are lost (here: the write `9` to memory 0 is never notified) -/
+theorem deck_write_failure_without_callback_counterexample :
+    let evs := [CEv.dwrite 800 300 0 [1, 2] 1 false false, .mem (.write 9 0 0 [7] false false), .mem .disconnect]
+    (cstep deckCurrent (crun deckCurrent ⟨St.init, Deck.new 5⟩ (evs.take 2)).1 (.mem .disconnect)).res = .raised .typeError ∧
+    (cstep deckCurrent (crun deckCurrent ⟨St.init, Deck.new 5⟩ (evs.take 2)).1 (.mem .disconnect)).outs = [.writeFail 800 5 300] ∧
+    (cstep DeckVariant.fixed (crun DeckVariant.fixed ⟨St.init, Deck.new 5⟩ (evs.take 2)).1 (.mem .disconnect)).outs =
+      [.writeFail 800 5 300, .writeFail 9 0 0] := by decide
+
+/-- D63: `query_decks` while a deck read is in progress (or the other way round): `Memory.read` refuses (returns
+False), the manager ignores that, records the request and returns normally - the request is never sent, never
+notified, and its record stays for ever: every later `query_decks` raises 'Query ongoing' -/
+theorem deck_overlapping_requests_counterexample :
+    let evs := [CEv.dread 800 300 0 1 1 true, .query 800 2 true,
+                .mem (.pkt 1 [5, 44, 1, 0, 0, 0, 9]), .mem .disconnect]
+    acceptedAll deckCurrent 0 ⟨St.init, Deck.new 5⟩ evs = [2] ∧
+    closed 0 (crun deckCurrent ⟨St.init, Deck.new 5⟩ evs).2 = [] ∧
+    (crun deckCurrent ⟨St.init, Deck.new 5⟩ evs).1.d.query = some ⟨2, true⟩ ∧
+    dget? (crun deckCurrent ⟨St.init, Deck.new 5⟩ evs).1.s.reads 5 = none ∧
+    (cstep deckCurrent (crun deckCurrent ⟨St.init, Deck.new 5⟩ evs).1 (.query 800 3 true)).res = .raised .other ∧
+    (cstep DeckVariant.fixed ⟨(crun DeckVariant.fixed ⟨St.init, Deck.new 5⟩ (evs.take 1)).1.s,
+      (crun DeckVariant.fixed ⟨St.init, Deck.new 5⟩ (evs.take 1)).1.d⟩ (.query 800 2 true)).res = .raised .other := by
+  decide
+
+/-- the clearing of the read record must not depend on the failure callback (a variant that clears only when a
+callback was supplied leaves the record behind: every later deck read raises 'Read operation ongoing') -/
+theorem deck_read_record_must_always_be_cleared :
+    let dv : DeckVariant := ⟨true, true, true, false⟩
+    let evs := [CEv.dread 800 300 0 4 1 false, .mem (.pkt 1 [5, 44, 1, 0, 0, 7])]
+    (crun dv ⟨St.init, Deck.new 5⟩ evs).1.d.read = some ⟨1, false⟩ ∧
+    dget? (crun dv ⟨St.init, Deck.new 5⟩ evs).1.s.reads 5 = none ∧
+    (cstep dv (crun dv ⟨St.init, Deck.new 5⟩ evs).1 (.dread 800 300 0 4 2 false)).res = .raised .other := by decide
+
 /-! ## Non-vacuity -/
 
 /-- a 41-byte read at address 3 of memory 1 (45 bytes): three chunks, with duplicated replies on the way -/
@@ -559,6 +747,18 @@ example : notesW 0 (runSys Variant.fixed (Sys.init [List.replicate 60 0] [])
   decide +kernel
 example : ∀ a ∈ [Act.write 1 0 5 [1, 2] false true, .read 3 0 0 4, .deliver 0 true, .drop], a.OkForWrite := by
   simp [Act.OkForWrite, Act.WF, Ev.WF]
+
+/-- an admissible history for the CURRENT code: a deck read with failure callback that fails on an error status,
+a deck write with failure callback, a link drop, a further read -/
+example : CAdm deckCurrent ⟨St.init, Deck.new 5⟩
+    [.dread 800 300 0 4 1 true, .mem (.pkt 1 [5, 44, 1, 0, 0, 7]), .dwrite 800 300 0 [1] 2 true false,
+     .mem .disconnect, .dread 800 300 0 4 3 true] := by decide
+example : (crun deckCurrent ⟨St.init, Deck.new 5⟩
+    [.dread 800 300 0 4 1 true, .mem (.pkt 1 [5, 44, 1, 0, 0, 7]), .dwrite 800 300 0 [1] 2 true false,
+     .mem .disconnect, .dread 800 300 0 4 3 true]).2 = [.readFailed 1 0, .writeFailed 2 0] := by decide
+/-- for the repaired variant every well-formed request is admissible, also without failure callbacks and overlapping -/
+example : CAdm DeckVariant.fixed ⟨St.init, Deck.new 5⟩
+    [.query 800 1 true, .dread 800 300 0 4 2 false, .dwrite 800 300 0 [1] 3 false false, .mem .disconnect] := by decide
 
 example : (run Variant.fixed St.init d9Witness).2 = [.send 2 [0, 0, 0, 0, 0, 0x2a], .writeOk 1 0 0] := by decide
 
